@@ -53,6 +53,8 @@ type FuncContract struct {
 	Binds    []Bind
 	Callsite []CallsiteClause
 	Lets     []Clause // function-level definitions evaluated at entry: Label = name
+	NoRead   []string // receiver fields the function (transitively) must not read
+	Cache    []string // receiver fields that are memoisation caches (writes ignored by the readonly analysis)
 	Measure  []Expr   // function-level decreases (lexicographic) for recursion
 	MeasureText string
 }
@@ -117,7 +119,7 @@ var (
 )
 
 var clauseKeywords = map[string]bool{"func": true, "spec": true, "lemma": true, "property": true, "ghost": true, "requires": true,
-	"ensures": true, "loop": true, "invariant": true, "decreases": true, "flags": true, "bind": true, "callsite": true, "let": true, "hint": true}
+	"ensures": true, "loop": true, "invariant": true, "decreases": true, "flags": true, "bind": true, "callsite": true, "let": true, "hint": true, "noread": true, "cache": true}
 
 func parseParams(s string) ([]Param, error) {
 	s = strings.TrimSpace(s)
@@ -359,6 +361,17 @@ func (cs *Contracts) ParseFile(path, pkgName string) error {
 				return err
 			}
 			curLoop.Decreases = &c
+		case "noread", "cache":
+			if curF == nil {
+				return fail(l, "%s outside func", kw)
+			}
+			for _, f := range strings.FieldsFunc(rest, func(r rune) bool { return r == ',' || r == ' ' }) {
+				if kw == "noread" {
+					curF.NoRead = append(curF.NoRead, f)
+				} else {
+					curF.Cache = append(curF.Cache, f)
+				}
+			}
 		case "let":
 			k := strings.Index(rest, "=")
 			if curF == nil || k < 0 {
@@ -683,7 +696,12 @@ func (p *lexer) iff() Expr {
 	l := p.impl()
 	for p.isOp("<==>") {
 		p.pos++
-		r := p.impl()
+		var r Expr
+		if p.isID("forall") || p.isID("exists") {
+			r = p.expr()
+		} else {
+			r = p.impl()
+		}
 		l = EBin{Op: "<==>", L: l, R: r}
 	}
 	return l
